@@ -103,6 +103,11 @@ def drop_cond(t):
         if isint(x):
             return 'E'
         return x
+    # atomic decisions (tables.decisions): an integrality test is simply true on the real-valued side, its negation false
+    if _is_int_test(t):
+        return 'TRUE'
+    if isinstance(t, tuple) and len(t) == 2 and t[0] == '!' and _is_int_test(t[1]):
+        return 'FALSE'
     r = simp(t)
     if r == 'E':
         return 'TRUE' if isinf(t) or has(t, isinf) and not isint(t) else 'FALSE'
